@@ -67,6 +67,9 @@ type c14Input struct {
 	LongMs     int     `json:"longMs,omitempty"`     // timed history: base duration (virtual ms) of a long job (jobKind long / long-mixed)
 	StopAtMs   int     `json:"stopAtMs,omitempty"`   // timed history: Stop / cancel is injected at this virtual time (instead of after k yields)
 	Via        string  `json:"via,omitempty"`        // "" = util.NewWorkerGroup directly | runner-v3 | runner-v2: the group as the runner's constructor builds it (Jobs = batches per CheckUpkeeps caller)
+	PerTick    int     `json:"perTick,omitempty"`    // delegate-v3: payloads the log provider returns on every poll of the flow
+	Ticks      int     `json:"ticks,omitempty"`      // delegate-v3: polls to let happen
+	Unset      bool    `json:"unset,omitempty"`      // delegate-v3: MaxServiceWorkers left at 0 (Workers then holds the default that applies)
 	Queue      int     `json:"queue,omitempty"`      // runner: WorkerQueueLength (!= Workers)
 	Trace      bool    `json:"trace,omitempty"`      // record the verif hook events of the run (needs the hooks in /repo: c14_trace_test.go)
 }
@@ -279,6 +282,9 @@ func c14BubbleGoroutines() int {
 // c14Run executes one case on the real worker group.  `verdict` is called with the
 // observations as soon as the deadlock verdict is known and before anything is released.
 func c14Run(t *testing.T, in c14Input, verdict func(c14Impl)) (impl c14Impl) {
+	if in.Via == "delegate-v3" {
+		return c14RunDelegate(t, in, verdict)
+	}
 	if in.Via != "" {
 		return c14RunRunner(t, in, verdict)
 	}
@@ -627,6 +633,9 @@ func c14Edge() []c14Input {
 		{Workers: 2, Jobs: []int{10}, StopJobs: [][]int{{3}}, StopWhere: "res", Mode: "none", JobKind: "yield", Salt: 1},
 		// v2 runner: concurrent callers with different request flags
 		{Via: "runner-v2", Workers: 3, Queue: 100, Jobs: []int{8, 8}, Mercury: []bool{true, false}, Mode: "none", JobKind: "hold"},
+		// through plugin.NewDelegate: a configured limit below the default, more batches per tick than workers
+		{Via: "delegate-v3", Workers: 2, Queue: 0, PerTick: 100, Ticks: 2, LongMs: 60, Mode: "none", JobKind: "long"},
+		{Via: "delegate-v3", Workers: 5, Queue: 10, PerTick: 100, Ticks: 2, LongMs: 60, Mode: "none", JobKind: "long"},
 		// through the runners' constructors: Workers != WorkerQueueLength, more batches than workers
 		{Via: "runner-v3", Workers: 3, Queue: 1000, Jobs: []int{36}, Mode: "none", JobKind: "hold"},
 		{Via: "runner-v3", Workers: 2, Queue: 100, Jobs: []int{5, 5, 5}, Mode: "none", JobKind: "hold", Salt: 4},
@@ -1018,6 +1027,11 @@ func c14Cases(t *testing.T) (cases []c14Case, dist map[string]int) {
 	r5 := NewRng(seed() + 0x5709)
 	for i, ns := 0, tierN(150, 2500); i < ns; i++ {
 		cases = append(cases, c14Case{"gen-jobstop", c14GenJobStop(r5)})
+	}
+	// the runner as the plugin's composition root (plugin.NewDelegate) configures it
+	r6 := NewRng(seed() + 0xde1e)
+	for i, nd := 0, tierN(60, 800); i < nd; i++ {
+		cases = append(cases, c14Case{"gen-delegate", c14GenDelegate(r6)})
 	}
 	// the worker group as the runners' public constructors build it (own random stream)
 	r3 := NewRng(seed() + 0x4a11)
